@@ -22,6 +22,22 @@ def is_parser_fn(f):
     return f["tk"] == "inst" and f["q"].startswith(PARSER + "<")
 
 
+def outer_targs(q, prefix):
+    """template-argument text of the outermost `prefix<...>` in q (bracket matched)"""
+    i = len(prefix)
+    if not q.startswith(prefix + "<"):
+        return ""
+    depth = 0
+    for j in range(i, len(q)):
+        if q[j] == "<":
+            depth += 1
+        elif q[j] == ">":
+            depth -= 1
+            if depth == 0:
+                return q[i + 1:j]
+    return q[i + 1:]
+
+
 def is_pos_type(t):
     t = t.replace("const ", "").replace("&", "").strip()
     return t.endswith("::Position") and "ChaiScript_Parser<" in t
@@ -374,6 +390,16 @@ def run(chk):
     chk.assume("the caller hands parse() a std::string (buffer [begin,end) is valid); resource exhaustion is out of scope")
 
     pfns = [f for f in prog.fns if is_parser_fn(f)]
+    # several instantiations of the parser template may exist (the thorough tier sees the unit tests' tracer): they are
+    # substitutions of one pattern; the one with the most member functions is analysed, the others are listed
+    groups = {}
+    for f in pfns:
+        groups.setdefault(outer_targs(f["q"], PARSER), []).append(f)
+    primary = max(groups, key=lambda k: len(groups[k]))
+    for k in sorted(groups):
+        if k != primary:
+            chk.assume("further instantiation of the parser template not analysed separately (same pattern, %d functions): ChaiScript_Parser<%s...>" % (len(groups[k]), k[:80]))
+    pfns = groups[primary]
     members = [f for f in pfns if strip_targs(f.get("cls") or "") == PARSER]
 
     # ------------------------------------------------------------------ R1.1
@@ -420,7 +446,7 @@ def run(chk):
     c = dc_ctor[0]
     incs = [n for n in uncond_exprs(c["body"]) if n.get("k") == "unop" and n.get("op") == "++" and "m_current_parse_depth" in expr_str(prog, c, n)]
     thr = [n for n in uncond_exprs(c["body"]) if n.get("k") == "if" and always_exits(n.get("then")) and any(x.get("k") == "throw" and "eval_error" in prog.T(c, x.get("tt")) for x in walk(n["then"]))
-           and "m_current_parse_depth" in expr_str(prog, c, n["cond"]) and ">" in expr_str(prog, c, n["cond"])]
+           and depth_limit_test(prog, c, n["cond"])]
     r2.ob("Depth_Counter/constructor increments the depth and throws eval_error beyond max_depth", len(incs) == 1 and len(thr) == 1, c.where, c["q"],
           "constructor does not increment-and-check the parse depth")
     d = dc_dtor[0]
@@ -589,6 +615,17 @@ def run(chk):
                   "parsing yields a tree or eval_error, never another exception type from a fold-time failure")
     from .c02 import decide_optimizer_throws
     decide_optimizer_throws(chk, r5, prog, cg, label="Optimizer::optimize (called from build_match)")
+
+
+def depth_limit_test(prog, c, cond):
+    """the condition is exactly `depth > limit` / `depth >= limit` (no further conjunct that could disable it)"""
+    e = strip_casts(cond)
+    if e.get("k") != "binop" or e.get("op") not in (">", ">="):
+        return False
+    l, r = strip_casts(e["lhs"]), strip_casts(e["rhs"])
+    if not (l.get("k") == "member" and l.get("name") == "m_current_parse_depth"):
+        return False
+    return r.get("k") in ("lit", "ref") or (r.get("k") == "other")
 
 
 def has_depth_guard(prog, g):
